@@ -241,10 +241,29 @@ void h_ovni_thread_free_direct(void)
 	if (g_keys & K_RANK) REACH("rank stored too");
 }
 
-/* direct mode, the documented end-of-thread protocol: flush, then free.  The real flush_evbuf /
- * write_evbuf run inline (short-write loop by loop contract); a kill inside any write(2) or
- * inside the store finds INV_CRASH true: the finished mark can be on disk only after the
- * last byte of the stream was handed to write(2). */
+/* write_evbuf under kill (C09): while no finished-looking metadata is visible in final, a kill
+ * inside any write(2) of the short-write loop finds the crash invariant true; all bytes are
+ * handed to write(2) on return (else die).  Loop contract loops/c09_write.json (= C01's). */
+#define NO_FINISHED_MARK (!(C09_STATE(T_FIN, F_JSON) >= S_MAYBE && g_jfin[T_FIN]))
+void c_write_evbuf(uint8_t *buf, size_t size)
+__CPROVER_requires(CAP_OK && FILE_PRE && size <= g_cap && __CPROVER_is_fresh(buf, size))
+__CPROVER_requires(FS_WF && !g_out_open && NO_FINISHED_MARK && INV_NOLOSS)
+__CPROVER_assigns(g_file_len, g_byte, g_died)
+__CPROVER_ensures(g_file_len == OLD(g_file_len) + size)
+;
+void h_write_evbuf(void)
+{
+	uint8_t *buf; size_t size;
+	write_evbuf(buf, size);
+	REACH("write_evbuf returns");
+	if (rproc.move_to_final) REACH("tmpdir mode");
+	if (!rproc.move_to_final) REACH("direct mode");
+}
+
+/* direct mode, the documented end-of-thread protocol: flush, then free.  The real flush_evbuf
+ * and ovni_thread_free run inline; write_evbuf through the contract above, whose precondition
+ * NO_FINISHED_MARK is an obligation at the call site: the stream is written only while the
+ * finished mark cannot be on disk; conversely the store happens after the last write(2). */
 static void c09_flush_then_free(void)
 {
 	flush_evbuf();
